@@ -345,6 +345,10 @@ def check_case(case, rec):
             if any(b.order == 8 for *_, b in m.bonds()) or any(m.atom(n).stereo is not None for n in m.stereogenic_allenes) or \
                     any(a.atomic_number == 1 or not a.is_forming_single_bonds for _, a in m.atoms()):
                 continue  # RDKit conventions for coordinate bonds, allenes, explicit H and metal hydrogens differ
+            from ..oracles import valence_ref
+            if any(a.implicit_hydrogens != valence_ref.implicit_h(a, valence_ref.atom_neighbours(m, n)) for n, a in m.atoms()):
+                rec.count('rdkit:skip (a hydrogen count that is not the default one: a mol block has no field for it)')
+                continue
             rd = Chem.MolFromMolBlock(blk.split('>  <')[0])
             if rd is None:
                 rec.count('rdkit:rejects-block')
